@@ -204,7 +204,9 @@ def _nansum(x, *a, **k):
 
 
 def interp_model(x, xp, fp, left=None, right=None):
-    """contract of np.interp for increasing xp (piecewise linear, clamped)"""
+    """contract of np.interp for non-decreasing xp, as numpy computes it: left/right outside [xp[0], xp[-1]];
+    otherwise with j the LAST index such that xp[j] <= x: fp[-1] if j is the last node, fp[j] if x == xp[j],
+    else fp[j] + (fp[j+1]-fp[j]) (x-xp[j])/(xp[j+1]-xp[j])"""
     xp = list(xp)
     fp = list(fp)
     n = len(xp)
@@ -216,14 +218,17 @@ def interp_model(x, xp, fp, left=None, right=None):
             return lv
         if bool(xv > xp[-1]):
             return rv
-        for i in range(n - 1):
-            if bool(xv <= xp[i + 1]):
-                if bool(xv == xp[i + 1]):
-                    return fp[i + 1]
-                if bool(xv == xp[i]):
-                    return fp[i]
-                return fp[i] + (fp[i + 1] - fp[i]) * (xv - xp[i]) / (xp[i + 1] - xp[i])
-        return rv
+        j = 0
+        for i in range(1, n):
+            if bool(xp[i] <= xv):
+                j = i
+            else:
+                break
+        if j == n - 1:
+            return fp[n - 1]
+        if bool(xv == xp[j]):
+            return fp[j]
+        return fp[j] + (fp[j + 1] - fp[j]) * (xv - xp[j]) / (xp[j + 1] - xp[j])
     if isinstance(x, _np.ndarray) or isinstance(x, (list, tuple)):
         xa = _np.asarray(x, dtype=object)
         out = _np.empty(xa.shape, dtype=object)
